@@ -144,11 +144,14 @@ static void case_c02(rng_t *r, ctx_t *c) {
     static const char *types[] = {"u1", "u4", "i4", "u8", "i8", "u16", "i16", "u24", "i24", "u32", "i32", "f32", "f32", "f64", "u64", "i64"};
     const dtype_t *t = dtype_by_name(RNG_PICK(r, types));
     int dcls = rng_chance(r, 2, 3) ? DEF_TINYLEVELS : (rng_chance(r, 1, 2) ? DEF_MINIMAL : DEF_SMALL);
+    /* blocks larger than the reader's initial 1 MiB chunk buffer: the nested level-0 request of an unaligned summary-level
+     * request makes the reader grow (and move) its buffer */
+    if (t->bits >= 8 && rng_chance(r, 1, 10)) dcls = DEF_BIGBLOCK;
     struct jls_signal_def_s d, nm;
     gen_def(r, &d, 3, 1, t, dcls);
     int fcls; int64_t first = gen_first_id(r, &fcls);
     d.sample_id_offset = first;
-    int wantband = rng_chance(r, 1, 4);
+    int wantband = dcls != DEF_BIGBLOCK && rng_chance(r, 1, 4);
     if (wantband) {   /* summary chunks wider than 25 entries of the next level: see "band" below */
         d.sample_decimate_factor = 10; d.summary_decimate_factor = 10;
         d.samples_per_data = 10 * (uint32_t) rng_range(r, 1, 5);
